@@ -447,7 +447,7 @@ func init() {
 				Canary: func(cc *Ctx, r *Rep) { ruleMultistream("gzc")(cc, r, "quick") }, WantFail: []string{"gzc.Bad#multistream"}, WantPassMin: 1},
 			{Name: "PATH-BAMLEN", What: "bam.newBuffer returns the errors of both reads; io.EOF inside a record is not a clean end", Floor: 1, Run: ruleBamLen},
 			{Name: "READ-FILLS", What: "Reader.Read comes back short, or with io.EOF, only where the recorded error says so: a member that merely looks like the end (its header equal to the marker's after one altered byte) does not end the stream before it was inflated and checked (shared with C01, C02; here since sixteenth-round seed C10-r)", Floor: 2, Run: ruleReadFills},
-			{Name: "ERR-CLEAR", What: "Reader.Read and ReadByte set Reader.err to nil only where it last took the error of the current block's own Read/ReadByte (the io.EOF of a used-up block): a failure of nextBlock – a damaged or cut member – is never cleared, so it is reported and stays (added after sixteenth-round seed C10-q)", Floor: 3, Run: ruleErrClear},
+			{Name: "ERR-CLEAR", What: "Reader.Read and ReadByte set Reader.err to nil only where it last took the error of the current block's own Read/ReadByte (the io.EOF of a used-up block): a failure of nextBlock – a damaged or cut member – is never cleared, so it is reported and stays (added after sixteenth-round seed C10-q)", Floor: 2, Run: ruleErrClear},
 			{Name: "MARKER-ONCE", What: "only Writer.Close emits the EOF marker constant: a prefix cut at a block boundary before it has HasEOF false (shared with C08)", Floor: 1, Run: ruleMarkerOnce},
 			{Name: "EOF-MID-HEADER", What: "sam.(*Header).DecodeBinary: the io.EOF of a read after the magic number is never returned unchanged – a BAM stream cut at a block boundary inside its header is not a clean end", Floor: 4, Run: ruleEOFMidHeader},
 			{Name: "MEMBER-ACCEPT", What: "bgzf nextBlockAt starts the decompression of every member readMember read without error: no return in between (shared with C01; added after eighth-round seed C01-j)", Floor: 1, Run: ruleMemberAccept},
